@@ -70,7 +70,9 @@ Proof.
   - (* EFree *) step_inv H. upd s o.
   - (* ESub *) step_inv H; auto; apply (deliv_same s); auto.
   - (* ESend *)
-    destruct r; try (step_inv H; auto; apply (deliv_same s); auto; fail).
+    destruct r; try (step_inv H; auto;
+                     try (match goal with E : sres_eqb _ _ = true |- _ => simpl in E; discriminate E end);
+                     apply (deliv_same s); auto; fail).
     apply step_send_ok in H. cbv zeta in H. subst s'. simpl in Dc. bool_hyps.
     upd s o.
     destruct I as (_ & _ & _ & I4). intros [[c0 Hc]|[_ Hc]]; [rewrite I4 in Hc by assumption; discriminate|congruence].
